@@ -109,7 +109,10 @@ def staleView (pieces : List Bytes) (old new : Val) : Val :=
        let w := inPlacePrefix pieces oc
        if !(nd == od) && !w.isEmpty then .bytes nl (w.take od.length ++ od.drop w.length) oc else old
      | _ => old)
-  | .ptr _ | .map _ _ _ | .slice _ _ _ => new
+  -- a nil map / slice that was auto-created in the copy stays nil for the owner
+  | .map nl _ _ => if nl then old else new
+  | .slice nl _ _ => if nl then old else new
+  | .ptr _ => new
   | _ => old
 termination_by structural old
 def staleViews (pieces : List Bytes) (olds news : List Val) : List Val :=
